@@ -196,6 +196,7 @@ ValsB == {<<0, 1>>, <<9, 4>>, <<-3, 1>>}
 InitsA == {<<<<4, 1>>, <<1, 4>>, <<3, 1>>>>}
 InitsB == {<<<<4, 1>>, <<1, 4>>, <<3, 1>>>>, <<<<-2, 1>>, <<0, 1>>, <<1, 1>>>>}
 EpsA == {<<0, 1>>, <<1, 4>>, <<1, 10000000>>}
+EpsQ == {<<0, 1>>, <<1, 4>>}
 AllBin == {"add", "sub", "mul", "div", "pow"}
 TwoBin == {"add", "mul"}
 
@@ -232,7 +233,8 @@ StartOps == /\ phase = "build" /\ nb >= 1 /\ MaxOps > 0 /\ phase' = "ops"
 
 Trees == { k \in 1..Len(pool) : IsTree(pool[k]) }
 Composite == { k \in (NL + 1)..Len(pool) : TRUE }
-Do(o) == /\ phase = "ops" /\ Len(ops) < MaxOps /\ o.op \in OpKinds
+\* an Equation ends a history
+Do(o) == /\ phase = "ops" /\ Len(ops) < MaxOps /\ o.op \in OpKinds /\ (IF Len(ops) = 0 THEN TRUE ELSE ops[Len(ops)].op # "eq")
          /\ LET s == ApplyOp(pool, Cur, o) IN
               val' = s.val /\ chk' = s.chk /\ stk' = s.stk /\ home' = s.home /\ ngk' = s.ngk
          /\ ops' = Append(ops, o) /\ UNCHANGED <<pool, ini, same, nb, phase>>
@@ -246,18 +248,19 @@ MakeEquation(a, b, c, h, e) == /\ (a = Len(pool) \/ b = Len(pool)) /\ Defined(po
                                /\ Do(OpRec("eq", a, b, e[1], e[2], c, h))
 
 Emit == /\ EMIT /\ phase # "emitted"
-        /\ IF MaxOps = 0 THEN phase = "build" /\ nb = MaxBuild ELSE phase = "ops" /\ Len(ops) = MaxOps
+        /\ IF MaxOps = 0 THEN phase = "build" /\ nb = MaxBuild
+           ELSE phase = "ops" /\ (IF Len(ops) = 0 THEN FALSE ELSE IF Len(ops) = MaxOps THEN TRUE ELSE ops[Len(ops)].op = "eq")
         /\ phase' = "emitted" /\ UNCHANGED <<pool, ini, val, chk, stk, home, ngk, same, nb, ops>>
         /\ PrintT(ToJson([pool |-> pool, nl |-> NL, same |-> same, ops |-> ops, init |-> ini]))
 
-Next == \/ \E op \in BinOps : \E l \in 1..Len(pool) : \E r \in 1..Len(pool) : Build(op, l, r)
-        \/ \E l \in 1..Len(pool) : BuildSqrt(l)
-        \/ StartOps
-        \/ \E x \in 1..2 : \E q \in Vals : Assign(x, q)
-        \/ \E x \in 1..2 : Undo(x)
-        \/ \E k \in Composite : UndoTerm(k) \/ \E t \in RehomeTargets : Rehome(k, t)
-        \/ \E a \in Trees : \E b \in Trees : \E c \in EqCmps : \E h \in {0, 1} : \E e \in EqEps : MakeEquation(a, b, c, h, e)
-        \/ Emit
+BuildAny == \E op \in BinOps : \E l \in 1..Len(pool) : \E r \in 1..Len(pool) : Build(op, l, r)
+SqrtAny == \E l \in 1..Len(pool) : BuildSqrt(l)
+AssignAny == \E x \in 1..2 : \E q \in Vals : Assign(x, q)
+UndoAny == \E x \in 1..2 : Undo(x)
+UndoTermAny == \E k \in Composite : UndoTerm(k)
+RehomeAny == \E k \in Composite : \E t \in RehomeTargets : Rehome(k, t)
+EquationAny == \E a \in Trees : \E b \in Trees : \E c \in EqCmps : \E h \in {0, 1} : \E e \in EqEps : MakeEquation(a, b, c, h, e)
+Next == BuildAny \/ SqrtAny \/ StartOps \/ AssignAny \/ UndoAny \/ UndoTermAny \/ RehomeAny \/ EquationAny \/ Emit
 Spec == Init /\ [][Next]_vars
 
 (***************************************************************************)
